@@ -266,3 +266,31 @@ Proof.
   destruct (rv (s_nonces (st_store st')) v f) as [x|] eqn:Hx; [|exact Hrv].
   apply (rv_entry _ _ _ _ Hok') in Hx. pose proof (Hb' _ _ _ Hx). lia.
 Qed.
+
+(* ---- across a parameter update that keeps MaxNonce ---- *)
+Lemma count_inv_params p p' v f sc : p_max_nonce p' = p_max_nonce p -> count_inv p v f sc -> count_inv p' v f sc.
+Proof.
+  intros E H. destruct sc as [st c]. destruct H as [H1 [H2 [H3 H4]]]. split; [exact H1|]. split; [|split; [exact H3|]].
+  - intros v0 f0 x He. rewrite E. exact (H2 v0 f0 x He).
+  - rewrite E. exact H4.
+Qed.
+
+Theorem admitted_bounded_across_update p p' v f st ops1 ops2 :
+  0 <= p_max_nonce p -> p_max_nonce p' = p_max_nonce p ->
+  tables_ok (s_nonces (st_store st)) -> bounded p (s_nonces (st_store st)) ->
+  snd (fold_left (count_step p' v f) ops2 (fold_left (count_step p v f) ops1 (st, 0))) <= p_max_nonce p.
+Proof.
+  intros Hmn E Hok Hb.
+  assert (H0 : count_inv p v f (st, 0)).
+  { split; [exact Hok|]. split; [exact Hb|]. split; [lia|].
+    destruct (rv (s_nonces (st_store st)) v f) as [x|] eqn:Hx; [|exact Hmn].
+    apply (rv_entry _ _ _ _ Hok) in Hx. pose proof (Hb _ _ _ Hx). lia. }
+  pose proof (count_run_inv p v f Hmn ops1 (st, 0) H0) as H1.
+  pose proof (count_inv_params p p' v f _ E H1) as H1'.
+  assert (Hmn' : 0 <= p_max_nonce p') by lia.
+  pose proof (count_run_inv p' v f Hmn' ops2 _ H1') as H2.
+  destruct (fold_left (count_step p' v f) ops2 (fold_left (count_step p v f) ops1 (st, 0))) as [st' c]. simpl.
+  destruct H2 as [Hok' [Hb' [Hc Hrv]]]. rewrite E in *.
+  destruct (rv (s_nonces (st_store st')) v f) as [x|] eqn:Hx; [|exact Hrv].
+  apply (rv_entry _ _ _ _ Hok') in Hx. pose proof (Hb' _ _ _ Hx). lia.
+Qed.
